@@ -19,7 +19,10 @@ Definition obs1 := option (list (list Z) * list cind).
    0..nslots-1, initially empty lists with an invalid fitness). *)
 Inductive case :=
 | CArch (kind : option Z) (sim : simkind) (ops : list cop) (obs : list obs1)
-| CHeap (kind : option Z) (sim : simkind) (nslots : nat) (hops : list hop) (obs : list (option obs1)).
+| CHeap (kind : option Z) (sim : simkind) (nslots : nat) (hops : list hop) (obs : list (option obs1))
+(* CSeq: one archive object reconfigured between calls (self.maxsize = ..., self.similar = ...):
+   segments (maxsize-or-None, operator, operations); the state is carried from one segment to the next *)
+| CSeq (segs : list (option Z * simkind * list cop)) (obs : list obs1).
 
 Fixpoint index_of (x : Z) (l : list Z) (i : Z) : option Z :=
   match l with
@@ -101,6 +104,20 @@ Fixpoint htags_model (t : list (option (heap * harch))) (obs : list (option obs1
 Definition htags_obs (obs : list (option obs1)) : list Z :=
   flat_map (fun o => match o with Some (Some (_, its)) => map tag its | _ => [] end) obs.
 
+Definition last_state (h : hof cind) (t : list (option (hof cind))) : option (hof cind) :=
+  fold_left (fun _ o => o) t (Some h).
+
+Fixpoint seg_trace (h : hof cind) (segs : list (option Z * simkind * list cop)) : list (option (hof cind)) :=
+  match segs with
+  | [] => []
+  | (kind, sim, ops) :: r =>
+      let t := trace cind wv (csimilar sim) kind h ops in
+      t ++ match last_state h t with
+           | Some h' => seg_trace h' r
+           | None => []
+           end
+  end.
+
 Definition check (c : case) : bool :=
   match c with
   | CArch kind sim ops obs =>
@@ -109,4 +126,7 @@ Definition check (c : case) : bool :=
   | CHeap kind sim nslots hops obs =>
       let t := h_trace (osimilar sim) kind (repeat null_obj nslots, mkharch [] []) hops in
       all2 (hstate_eqb sim) t obs && zl_eqb (hcanon nslots (htags_model t obs) []) (htags_obs obs)
+  | CSeq segs obs =>
+      let t := seg_trace empty segs in
+      all2 state_eqb t obs && zl_eqb (canon (tags_of_model t)) (tags_of_obs obs)
   end.
